@@ -103,6 +103,13 @@ def field_mutants(rng, base_n=6):
                     h = base(); h.flags = uflag | 2; h.opts = [(7, b"ab")]; h.raw["optsize0"] = ci(sz); out.append(("optsize=%d" % sz, h))
                 for oc in (0, 1, 2, 3, 1000, 2**64 - 1):
                     h = base(); h.flags = uflag | 2; h.opts = [(7, b"ab"), (9, b"")]; h.raw["optcount"] = ci(oc); out.append(("optcount=%d" % oc, h))
+                # an element whose size makes the cursor wrap back onto the element itself (id + size field = L bytes, size =
+                # 2^64 - L), with an element count that never runs out: a bound check that adds before comparing loops for ever
+                for oc in (2**63, 2**64 - 1, 10**7):
+                    L = len(ci(0)) + len(ci(2**64 - 11))
+                    for sz in (2**64 - L, 2**64 - L - 1, 2**64 - L + 1, 2**64 - 1):
+                        h = base(); h.flags = uflag | 2; h.opts = [(0, b"")]; h.raw["optcount"] = ci(oc); h.raw["optsize0"] = ci(sz)
+                        out.append(("optwrap=%d/%d" % (oc, sz), h))
                 # header size field
                 for d in (-1, 1):
                     h = base(); body_len = len(h.build()) - h.lead_len()
